@@ -108,6 +108,9 @@ type Prover struct {
 	escaped map[ssa.Value]*escInfo
 	holders map[ssa.Value]map[ssa.Value]bool
 	between map[[2]ssa.Instruction]map[ssa.Instruction]bool
+	callCases map[string]*callCase
+	spilled   map[*ssa.Alloc]*ssa.Parameter
+	regs      map[string]ssa.Value
 }
 
 func (p *Prover) setLo(a string, k int64) {
@@ -325,6 +328,11 @@ func isBuiltinInstr(in ssa.Instruction) bool {
 // ok=false when the location is of another kind or an unknown value may reach.
 func (p *Prover) resolveLoad(ld *ssa.UnOp) ([]ssa.Value, bool) {
 	root, fp := locOf(ld.X)
+	if al, ok := root.(*ssa.Alloc); ok && fp == "" {
+		if prm := p.spilledParam(al); prm != nil {
+			return []ssa.Value{prm}, true
+		}
+	}
 	var local *ssa.Alloc
 	switch r := root.(type) {
 	case *ssa.Alloc:
@@ -369,6 +377,50 @@ func (p *Prover) resolveLoad(ld *ssa.UnOp) ([]ssa.Value, bool) {
 	if len(vals) == 0 {
 		return nil, false
 	}
+	if len(vals) > 1 && local != nil {
+		// drop definitions that cannot reach the load on any feasible path
+		// (path-sensitive search with the function's condition classes)
+		isDef := func(in ssa.Instruction) (ssa.Value, bool) {
+			if st, ok := in.(*ssa.Store); ok {
+				if r2, fp2 := locOf(st.Addr); r2 == root && fp2 == fp {
+					return st.Val, true
+				}
+			}
+			return nil, false
+		}
+		var kept []ssa.Value
+		for _, v := range vals {
+			if v == Unknown {
+				kept = append(kept, v)
+				continue
+			}
+			feasible := false
+			target := func(in ssa.Instruction) bool { return in == ssa.Instruction(ld) }
+			if v == Zero {
+				stop := func(in ssa.Instruction) bool { _, d := isDef(in); return d }
+				feasible = Reachable(p.Fn, p.Fn.Blocks[0].Instrs[0], target, stop, nil)
+			} else {
+				Instrs(p.Fn, func(in ssa.Instruction) {
+					if feasible {
+						return
+					}
+					if dv, d := isDef(in); d && dv == v {
+						stop := func(in2 ssa.Instruction) bool { _, d2 := isDef(in2); return d2 && in2 != in }
+						if Reachable(p.Fn, in, target, stop, nil) {
+							feasible = true
+						}
+					}
+				})
+			}
+			if feasible {
+				kept = append(kept, v)
+			}
+		}
+		vals = kept
+		if len(vals) == 0 {
+			return nil, false
+		}
+	}
 	for _, v := range vals {
 		if v == Unknown {
 			return nil, false
@@ -382,6 +434,216 @@ func (p *Prover) resolveLoad(ld *ssa.UnOp) ([]ssa.Value, bool) {
 	}
 	sort.Slice(vals, func(i, j int) bool { return valName(vals[i]) < valName(vals[j]) })
 	return vals, true
+}
+
+// spilledParam: al holds a parameter that is stored once at entry and is only
+// read afterwards, also by the closures that capture it.
+func (p *Prover) spilledParam(al *ssa.Alloc) *ssa.Parameter {
+	if p.spilled == nil {
+		p.spilled = map[*ssa.Alloc]*ssa.Parameter{}
+	}
+	if v, ok := p.spilled[al]; ok {
+		return v
+	}
+	p.spilled[al] = nil
+	var prm *ssa.Parameter
+	ok := true
+	var readOnly func(v ssa.Value, top bool)
+	readOnly = func(v ssa.Value, top bool) {
+		refs := v.Referrers()
+		if refs == nil {
+			return
+		}
+		for _, r := range *refs {
+			switch x := r.(type) {
+			case *ssa.UnOp:
+				if x.Op != token.MUL {
+					ok = false
+				}
+			case *ssa.Store:
+				if x.Addr == v && top && prm == nil {
+					if pv, isP := x.Val.(*ssa.Parameter); isP && x.Block() == p.Fn.Blocks[0] {
+						prm = pv
+						continue
+					}
+				}
+				ok = false
+			case *ssa.MakeClosure:
+				cf, isF := x.Fn.(*ssa.Function)
+				if !isF {
+					ok = false
+					continue
+				}
+				for i, b := range x.Bindings {
+					if b == v {
+						if i < len(cf.FreeVars) {
+							readOnly(cf.FreeVars[i], false)
+						} else {
+							ok = false
+						}
+					}
+				}
+			case *ssa.FieldAddr, *ssa.IndexAddr:
+				readOnly(x.(ssa.Value), false)
+			case *ssa.DebugRef:
+			default:
+				ok = false
+			}
+		}
+	}
+	readOnly(al, true)
+	if ok && prm != nil {
+		p.spilled[al] = prm
+	}
+	return p.spilled[al]
+}
+
+// resolveStruct: the load reads field path fp of local struct al, and the
+// whole struct was last assigned from the single value returned.
+func (p *Prover) resolveStruct(ld *ssa.UnOp, al *ssa.Alloc, fp string) (ssa.Value, bool) {
+	key := al.Name() + "\x00struct"
+	q := p.rdCache[key]
+	if q == nil {
+		q = ReachingDefs(p.Fn, func(in ssa.Instruction) (DefKind, ssa.Value) {
+			switch x := in.(type) {
+			case *ssa.Store:
+				r2, fp2 := locOf(x.Addr)
+				if r2 != ssa.Value(al) {
+					return DefNone, nil
+				}
+				if fp2 == "" {
+					return DefStrong, x.Val
+				}
+				return DefWeak, Unknown // a field store: handled per query below
+			case ssa.CallInstruction:
+				if p.callMayWriteLocal(in, al) {
+					return DefUnknown, nil
+				}
+			}
+			return DefNone, nil
+		})
+		p.rdCache[key] = q
+	}
+	vals := q(ld)
+	if len(vals) != 1 || vals[0] == Unknown || vals[0] == Zero {
+		return nil, false
+	}
+	if _, isConst := vals[0].(*ssa.Const); isConst {
+		return nil, false
+	}
+	return vals[0], true
+}
+
+// regValue finds the value named "tN" in this function.
+func (p *Prover) regValue(name string) ssa.Value {
+	if p.regs == nil {
+		p.regs = map[string]ssa.Value{}
+		Instrs(p.Fn, func(in ssa.Instruction) {
+			if v, ok := in.(ssa.Value); ok {
+				p.regs[v.Name()] = v
+			}
+		})
+	}
+	return p.regs[name]
+}
+
+// splitAtomName parses "len([t8].a.b)" into wrapper, register name and suffix.
+func splitAtomName(a string) (pre, reg, suffix, post string, ok bool) {
+	inner := a
+	for _, w := range []string{"len(", "cap("} {
+		if strings.HasPrefix(a, w) && strings.HasSuffix(a, ")") {
+			inner, pre, post = a[len(w):len(a)-1], w, ")"
+		}
+	}
+	if !strings.HasPrefix(inner, "[") {
+		return
+	}
+	end := strings.IndexByte(inner, ']')
+	if end < 0 {
+		return
+	}
+	reg, suffix = inner[1:end], inner[end+1:]
+	return pre, reg, suffix, post, true
+}
+
+// fieldVarsAlong resolves ".a.b" against struct type t.
+func fieldVarsAlong(t types.Type, suffix string) []*types.Var {
+	var out []*types.Var
+	for _, name := range strings.Split(strings.TrimPrefix(suffix, "."), ".") {
+		if i := strings.IndexByte(name, '&'); i >= 0 {
+			name = name[:i]
+		}
+		if pt, ok := t.Underlying().(*types.Pointer); ok {
+			t = pt.Elem()
+		}
+		st, ok := t.Underlying().(*types.Struct)
+		if !ok {
+			return nil
+		}
+		found := false
+		for i := 0; i < st.NumFields(); i++ {
+			if st.Field(i).Name() == name {
+				out = append(out, st.Field(i))
+				t = st.Field(i).Type()
+				found = true
+				break
+			}
+		}
+		if !found {
+			return nil
+		}
+	}
+	return out
+}
+
+// rebase: atom a names a field of a struct value that was copied out of the
+// heap by load ld; at that load the field equals the heap location's field.
+// Returns the heap atom and the load.
+func (p *Prover) rebase(a string) (string, *ssa.UnOp, bool) {
+	pre, reg, suffix, post, ok := splitAtomName(a)
+	if !ok || suffix == "" || !strings.HasPrefix(suffix, ".") {
+		return "", nil, false
+	}
+	ld, ok := p.regValue(reg).(*ssa.UnOp)
+	if !ok || ld.Op != token.MUL {
+		return "", nil, false
+	}
+	if _, isStruct := ld.Type().Underlying().(*types.Struct); !isStruct {
+		return "", nil, false
+	}
+	fa, ok := ld.X.(*ssa.FieldAddr)
+	if !ok {
+		return "", nil, false
+	}
+	if root, _ := locOf(fa); root != nil {
+		if _, isAlloc := root.(*ssa.Alloc); isAlloc {
+			return "", nil, false
+		}
+	}
+	var fields []*types.Var
+	var locals []localDep
+	base := p.path(fa.X, &fields, &locals, 0) + "." + fieldName(fa.X.Type(), fa.Field)
+	if fv := fieldVar(fa.X.Type(), fa.Field); fv != nil {
+		fields = append(fields, fv)
+	}
+	more := fieldVarsAlong(ld.Type(), suffix)
+	if more == nil {
+		return "", nil, false
+	}
+	fields = append(fields, more...)
+	na := pre + base + suffix + post
+	ref := p.atoms[a]
+	if p.atoms[na] == nil {
+		kind := akInt
+		if ref != nil {
+			kind = ref.kind
+		}
+		p.atoms[na] = &atomRef{kind: kind, v: ld.X, fields: fields, locals: locals, imported: true}
+		if kind != akInt {
+			p.setLo(na, 0)
+		}
+	}
+	return na, ld, true
 }
 
 func valName(v ssa.Value) string {
@@ -423,10 +685,21 @@ func (p *Prover) path(v ssa.Value, fields *[]*types.Var, locals *[]localDep, d i
 			case *ssa.FieldAddr:
 				root, fp := locOf(a)
 				if ra, isAlloc := root.(*ssa.Alloc); isAlloc {
+					// a field of a local struct that was last assigned as a whole: field of that value
+					if prm := p.spilledParam(ra); prm != nil {
+						return prm.Name() + fp
+					}
+					if sv, ok := p.resolveStruct(x, ra, fp); ok {
+						return p.path(sv, fields, locals, d+1) + fp
+					}
 					// local with several/unknown reaching values: one atom per location,
 					// valid between writes (see stable)
 					*locals = append(*locals, localDep{ra, fp})
 					return "&" + ra.Name() + fp
+				}
+				if _, isStruct := x.Type().Underlying().(*types.Struct); isStruct {
+					// a struct copied out of the heap is a value of its own (see rebase)
+					return "[" + x.Name() + "]"
 				}
 				if fv := fieldVar(a.X.Type(), a.Field); fv != nil {
 					*fields = append(*fields, fv)
@@ -445,6 +718,13 @@ func (p *Prover) path(v ssa.Value, fields *[]*types.Var, locals *[]localDep, d i
 		return p.path(x.X, fields, locals, d+1) + "." + fieldName(x.X.Type(), x.Field)
 	case *ssa.ChangeType:
 		return p.path(x.X, fields, locals, d+1)
+	case *ssa.BinOp:
+		// x & k: a pure function of x, named after x so that callee and caller agree
+		if x.Op == token.AND {
+			if k, ok := ConstInt(x.Y); ok && k >= 0 {
+				return p.path(StripConv(x.X), fields, locals, d+1) + "&" + strconv.FormatInt(k, 10)
+			}
+		}
 	case *ssa.Phi:
 		// pointer phi with a single non-nil source names that source
 		if _, isPtr := x.Type().Underlying().(*types.Pointer); isPtr {
@@ -483,8 +763,45 @@ func (p *Prover) atom(kind atomKind, v ssa.Value) string {
 			p.setLo(s, 0)
 		}
 		p.applyOwnedLen(s)
+		p.applyStructPost(s)
 	}
 	return s
+}
+
+// applyStructPost: atom a is len(r.f) for the struct result r of a repo call
+// whose summary bounds that field.
+func (p *Prover) applyStructPost(a string) {
+	pre, reg, suffix, _, ok := splitAtomName(a)
+	if !ok || pre != "len(" || suffix == "" {
+		return
+	}
+	var call *ssa.Call
+	idx := 0
+	switch x := p.regValue(reg).(type) {
+	case *ssa.Call:
+		call = x
+	case *ssa.Extract:
+		call, _ = x.Tuple.(*ssa.Call)
+		idx = x.Index
+	}
+	if call == nil {
+		return
+	}
+	callee := call.Call.StaticCallee()
+	if callee == nil || callee.Blocks == nil {
+		return
+	}
+	sum := p.Set.Summary(callee)
+	if sum == nil {
+		return
+	}
+	for _, sp := range sum.StructPost {
+		if sp.Res == idx && sp.Suffix == suffix {
+			l := lin1(a)
+			l.C = -sp.Min
+			p.conds = append(p.conds, condFact{L: l, call: call, success: sp.Success})
+		}
+	}
 }
 
 // applyOwnedLen: len(X.f1.f2) >= K when f1 is an owner field (see ownedLen).
@@ -925,6 +1242,52 @@ func (p *Prover) edgeFacts(b *ssa.BasicBlock, si int) []Fact {
 		for _, l := range p.cmpFacts(bo, a.Holds) {
 			out = append(out, Fact{L: l, Origin: iff})
 		}
+		// err == nil for the error of a repo call: its success postconditions
+		if (bo.Op == token.EQL || bo.Op == token.NEQ) && (bo.Op == token.EQL) == a.Holds {
+			ev := bo.X
+			if IsNilConst(ev) {
+				ev = bo.Y
+			} else if !IsNilConst(bo.Y) {
+				continue
+			}
+			if u := UniqueReaching(p.Fn, ev); u != nil {
+				ev = u
+			}
+			var call *ssa.Call
+			switch x := ev.(type) {
+			case *ssa.Call:
+				call = x
+			case *ssa.Extract:
+				call, _ = x.Tuple.(*ssa.Call)
+			}
+			if call != nil {
+				out = append(out, p.successFacts(call)...)
+				for _, cf := range p.conds {
+					if cf.call == call && cf.success && len(cf.pre) == 0 {
+						out = append(out, Fact{L: cf.L, Origin: call})
+					}
+				}
+			}
+		}
+	}
+	return out
+}
+
+// successFacts: the heap postconditions of a repo call that returned a nil error.
+func (p *Prover) successFacts(x *ssa.Call) []Fact {
+	callee := x.Call.StaticCallee()
+	if callee == nil || callee.Blocks == nil {
+		return nil
+	}
+	sum := p.Set.Summary(callee)
+	if sum == nil {
+		return nil
+	}
+	var out []Fact
+	for _, hp := range sum.HeapPost {
+		if l, ok := p.argLin(hp, callee, x.Call.Args, "", 0); ok {
+			out = append(out, Fact{L: l, Origin: x})
+		}
 	}
 	return out
 }
@@ -970,6 +1333,15 @@ func (p *Prover) rawFacts(at ssa.Instruction) []Fact {
 							}
 						}
 					}
+				default:
+					var ev ssa.Value = p.errExtract(x)
+					if ev == nil && x.Call.Signature().Results().Len() == 1 {
+						ev = x
+					}
+					if ev == nil || !provenNil(ev, blk) {
+						break
+					}
+					facts = append(facts, p.successFacts(x)...)
 				case "(*net.UDPConn).ReadFrom":
 					for _, ref := range Referrers(x) {
 						if e, ok := ref.(*ssa.Extract); ok && e.Index == 0 {
@@ -1338,6 +1710,24 @@ func (p *Prover) betweenSet(origin, at ssa.Instruction) map[ssa.Instruction]bool
 }
 
 func (p *Prover) stable(f Fact, at ssa.Instruction) bool {
+	return p.stableOver(f, func() map[ssa.Instruction]bool { return p.betweenSet(f.Origin, at) })
+}
+
+// stableInBlock: nothing the term mentions can change between the start of at's block and at.
+func (p *Prover) stableInBlock(l ILin, at ssa.Instruction) bool {
+	return p.stableOver(Fact{L: l}, func() map[ssa.Instruction]bool {
+		set := map[ssa.Instruction]bool{}
+		for _, in := range at.Block().Instrs {
+			if in == at {
+				break
+			}
+			set[in] = true
+		}
+		return set
+	})
+}
+
+func (p *Prover) stableOver(f Fact, between func() map[ssa.Instruction]bool) bool {
 	var bs map[ssa.Instruction]bool
 	for a := range f.L.Coef {
 		ref := p.atoms[a]
@@ -1345,7 +1735,7 @@ func (p *Prover) stable(f Fact, at ssa.Instruction) bool {
 			continue
 		}
 		if bs == nil {
-			bs = p.betweenSet(f.Origin, at)
+			bs = between()
 		}
 		var holders map[ssa.Value]bool
 		if len(ref.fields) > 0 {
@@ -1563,7 +1953,155 @@ func (p *Prover) proveFrom(g ILin, facts []ILin, at ssa.Instruction, hyp []ILin,
 			return true
 		}
 	}
+	// case split over the result of a repo call that occurs in the goal or the facts
+	seen := map[string]bool{}
+	var cands []string
+	note := func(l ILin) {
+		for a := range l.Coef {
+			if !seen[a] {
+				seen[a] = true
+				if p.callCases[a] != nil {
+					cands = append(cands, a)
+				}
+			}
+		}
+	}
+	note(g)
+	for _, f := range facts {
+		note(f)
+	}
+	sort.Strings(cands)
+	for _, a := range cands {
+		if p.splitCall(g, a, facts, at, hyp, depth) {
+			p.Set.NSplit++
+			return true
+		}
+	}
+	// a field of a struct copied out of the heap: prove the goal where the copy was made
+	for _, a := range names {
+		ha, ld, ok := p.rebase(a)
+		if !ok || depth >= 3 {
+			continue
+		}
+		fine := true
+		for other := range g.Coef {
+			if other == a {
+				continue
+			}
+			ref := p.atoms[other]
+			if ref == nil {
+				continue
+			}
+			if in, isIn := rootValue(ref.v).(ssa.Instruction); isIn {
+				if !(in.Block() == ld.Block() && indexOf(in.Block(), in) < indexOf(ld.Block(), ld)) && !(in.Block() != ld.Block() && in.Block().Dominates(ld.Block())) {
+					fine = false
+				}
+			}
+		}
+		if !fine {
+			continue
+		}
+		sub := g.clone()
+		c := sub.Coef[a]
+		delete(sub.Coef, a)
+		sub = sub.add(lin1(ha), c)
+		if p.proveAt(sub, ld, hyp, true, depth+1) {
+			p.Set.NSplit++
+			return true
+		}
+	}
+	// case split over the predecessors of a merge block: the goal held when the
+	// merge was entered and nothing it mentions changed since
+	if b := at.Block(); len(b.Preds) >= 2 && depth < 3 {
+		ok := true
+		if DebugStable {
+			fmt.Printf("MERGE-SPLIT %s at %v goal %s\n", p.Fn.Name(), at, g.String())
+		}
+		for a := range g.Coef {
+			ref := p.atoms[a]
+			if ref == nil {
+				continue
+			}
+			if in, isIn := rootValue(ref.v).(ssa.Instruction); isIn && in.Block() == b {
+				ok = false
+			}
+		}
+		for i := 0; ok && i < len(b.Preds); i++ {
+			pred := b.Preds[i]
+			term := pred.Instrs[len(pred.Instrs)-1]
+			if !p.stableInBlock(g, at) {
+				ok = false
+				break
+			}
+			fs := p.GuardFacts(term)
+			cnt := 0
+			for _, s2 := range pred.Succs {
+				if s2 == b {
+					cnt++
+				}
+			}
+			if cnt == 1 {
+				for si, sb := range pred.Succs {
+					if sb == b {
+						fs = append(fs, p.usable(p.edgeFacts(pred, si), term)...)
+					}
+				}
+			}
+			fs = append(fs, hyp...)
+			if !p.proveFrom(g, fs, term, hyp, depth+1) {
+				if DebugStable {
+					fmt.Printf("  pred %d fails; facts:\n", pred.Index)
+					for _, f := range fs {
+						fmt.Printf("    %s\n", f.String())
+					}
+				}
+				ok = false
+			}
+		}
+		if ok {
+			p.Set.NSplit++
+			return true
+		}
+	}
 	return false
+}
+
+type callCase struct {
+	call  *ssa.Call
+	cases []RetCase // already in this function's atoms
+}
+
+// splitCall proves g under each possible value of call result atom a; a case
+// whose selecting conditions contradict the facts at `at` is skipped.
+func (p *Prover) splitCall(g ILin, a string, facts []ILin, at ssa.Instruction, hyp []ILin, depth int) bool {
+	cc := p.callCases[a]
+	for _, cs := range cc.cases {
+		refuted := false
+		var gs []ILin
+		for _, gd := range cs.Guards {
+			// the guard was evaluated at the call; it must still describe the state at `at`
+			if !p.stable(Fact{L: gd, Origin: cc.call}, at) {
+				continue
+			}
+			neg := newILin().add(gd, -1)
+			neg.C -= 1
+			if p.Prove(neg, facts) {
+				refuted = true
+				break
+			}
+			gs = append(gs, gd)
+		}
+		if refuted {
+			continue
+		}
+		r := lin1(a)
+		fs := append(append([]ILin{}, facts...), gs...)
+		fs = append(fs, r.add(cs.Val, -1), cs.Val.add(r, -1))
+		if !p.Prove(g, fs) {
+			return false
+		}
+	}
+	return true
 }
 
 func (p *Prover) invariantFor(a string, ph *ssa.Phi) bool {
@@ -1659,6 +2197,24 @@ type PostFact struct {
 type FnSummary struct {
 	Exact map[int]ILin // result index -> the same linear expression over parameter atoms at every return
 	Post  []PostFact
+	StructPost []StructPost
+	HeapPost []ILin // facts over parameter-rooted heap paths that hold at every return with a nil error
+	Cases map[int][]RetCase // result index -> the values the result can take, each with the conditions under which it is chosen
+}
+
+// StructPost: len(result.Suffix) >= Min at every return (with a nil error when Success).
+type StructPost struct {
+	Res     int
+	Suffix  string
+	Min     int64
+	Success bool
+}
+
+// RetCase: under Guards (facts over parameter-rooted atoms that hold whenever
+// this case is taken) the result equals Val (over parameter atoms).
+type RetCase struct {
+	Val    ILin
+	Guards []ILin
 }
 
 func isIntType(t types.Type) bool {
@@ -1756,6 +2312,12 @@ func (ps *ProverSet) Summary(fn *ssa.Function) *FnSummary {
 			sum.Exact[i] = ls[0]
 			continue
 		}
+		if cs := pf.retCases(rets, i); len(cs) > 1 {
+			if sum.Cases == nil {
+				sum.Cases = map[int][]RetCase{}
+			}
+			sum.Cases[i] = cs
+		}
 		var templates []ILin
 		templates = append(templates, lin1("ret"))
 		for _, ip := range intParams {
@@ -1808,8 +2370,169 @@ func (ps *ProverSet) Summary(fn *ssa.Function) *FnSummary {
 			}
 		}
 	}
+	// slice fields of struct results
+	for i := 0; i < res.Len() && len(rets) > 0; i++ {
+		st, ok := res.At(i).Type().Underlying().(*types.Struct)
+		if !ok {
+			continue
+		}
+		for j := 0; j < st.NumFields(); j++ {
+			if _, isSlice := st.Field(j).Type().Underlying().(*types.Slice); !isSlice {
+				continue
+			}
+			suffix := "." + st.Field(j).Name()
+			okAll, n := true, 0
+			for _, r := range rets {
+				if class[r] == "failure" {
+					continue
+				}
+				n++
+				v := r.Results[i]
+				if _, isC := v.(*ssa.Const); isC {
+					okAll = false
+					break
+				}
+				var fs []*types.Var
+				var ls []localDep
+				name := "len(" + pf.path(v, &fs, &ls, 0) + suffix + ")"
+				if pf.atoms[name] == nil {
+					pf.atoms[name] = &atomRef{kind: akLen, v: v, fields: fs, locals: ls, imported: true}
+					pf.setLo(name, 0)
+				}
+				goal := lin1(name)
+				goal.C = -1
+				if !pf.proveAt(goal, r, nil, true, 1) {
+					okAll = false
+					break
+				}
+			}
+			if okAll && n > 0 {
+				sum.StructPost = append(sum.StructPost, StructPost{Res: i, Suffix: suffix, Min: 1, Success: len(class) > 0})
+			}
+		}
+	}
+	// heap postconditions on success
+	if len(class) > 0 {
+		var succ []*ssa.Return
+		for _, r := range rets {
+			if class[r] != "failure" {
+				succ = append(succ, r)
+			}
+		}
+		if len(succ) > 0 {
+			seenC := map[string]bool{}
+			for _, cand := range pf.GuardFacts(succ[0]) {
+				if len(cand.Coef) == 0 || !pf.paramRooted(cand) || seenC[cand.String()] {
+					continue
+				}
+				seenC[cand.String()] = true
+				heap := false
+				for a := range cand.Coef {
+					if pf.HasFields(a) {
+						heap = true
+					}
+				}
+				if !heap {
+					continue
+				}
+				all := true
+				for _, r := range succ[1:] {
+					if !pf.proveAt(cand, r, nil, true, 2) {
+						all = false
+						break
+					}
+				}
+				if all {
+					sum.HeapPost = append(sum.HeapPost, cand)
+				}
+			}
+		}
+	}
 	ps.sums[fn] = sum
 	return sum
+}
+
+// paramRooted: every atom of l is a parameter atom or a heap path rooted at a parameter.
+func (p *Prover) paramRooted(l ILin) bool {
+	for a := range l.Coef {
+		inner := a
+		for _, w := range []string{"len(", "cap("} {
+			if strings.HasPrefix(a, w) && strings.HasSuffix(a, ")") {
+				inner = a[len(w) : len(a)-1]
+			}
+		}
+		root := inner
+		if i := strings.IndexAny(inner, ".&"); i > 0 {
+			root = inner[:i]
+		}
+		ok := false
+		for _, prm := range p.Fn.Params {
+			if prm.Name() == root {
+				ok = true
+			}
+		}
+		if !ok {
+			return false
+		}
+		if ref := p.atoms[a]; ref != nil && len(ref.locals) > 0 {
+			return false
+		}
+	}
+	return true
+}
+
+// retCases enumerates the values of result i over all returns and, for a
+// returned phi, over its incoming edges, with the branch facts that select each.
+func (p *Prover) retCases(rets []*ssa.Return, i int) []RetCase {
+	var out []RetCase
+	add := func(v ssa.Value, at ssa.Instruction, extra []ILin) bool {
+		l, ok := p.Int(v, 0)
+		if !ok || !paramAtomsOnly(l, p.Fn) {
+			return false
+		}
+		var gs []ILin
+		for _, g := range append(p.usable(p.rawFacts(at), at), extra...) {
+			if len(g.Coef) > 0 && p.paramRooted(g) {
+				gs = append(gs, g)
+			}
+		}
+		out = append(out, RetCase{Val: l, Guards: gs})
+		return true
+	}
+	for _, r := range rets {
+		v := r.Results[i]
+		if ph, ok := v.(*ssa.Phi); ok && ph.Block() == r.Block() {
+			for ei, e := range ph.Edges {
+				pred := ph.Block().Preds[ei]
+				term := pred.Instrs[len(pred.Instrs)-1]
+				var edge []ILin
+				for si, sb := range pred.Succs {
+					if sb == ph.Block() {
+						cnt := 0
+						for _, s2 := range pred.Succs {
+							if s2 == sb {
+								cnt++
+							}
+						}
+						if cnt == 1 {
+							edge = p.usable(p.edgeFacts(pred, si), term)
+						}
+					}
+				}
+				if !add(e, term, edge) {
+					return nil
+				}
+			}
+			continue
+		}
+		if !add(v, r, nil) {
+			return nil
+		}
+	}
+	if len(out) > 8 {
+		return nil
+	}
+	return out
 }
 
 // argLin substitutes the callee's parameter atoms in l by the call's arguments
@@ -1892,6 +2615,7 @@ func (p *Prover) importPathAtom(a string, callee *ssa.Function, args []ssa.Value
 			p.atoms[na] = &atomRef{kind: cref.kind, v: args[i], fields: append(fields, cref.fields...), locals: locals, imported: true}
 		}
 		p.applyOwnedLen(na)
+		p.applyStructPost(na)
 		cp := p.Set.For(callee)
 		if lo, ok := cp.lo[a]; ok {
 			p.setLo(na, lo)
@@ -2018,6 +2742,30 @@ func (p *Prover) callResult(c *ssa.Call, idx int, v ssa.Value, d int) (ILin, boo
 	a := p.atom(akInt, v)
 	if !p.seenDef[v] {
 		p.seenDef[v] = true
+		if cs := sum.Cases[idx]; len(cs) > 0 {
+			var mine []RetCase
+			okAll := true
+			for _, c0 := range cs {
+				val, ok := p.argLin(c0.Val, callee, c.Call.Args, a, d)
+				if !ok {
+					okAll = false
+					break
+				}
+				rc := RetCase{Val: val}
+				for _, g0 := range c0.Guards {
+					if gl, ok := p.argLin(g0, callee, c.Call.Args, a, d); ok {
+						rc.Guards = append(rc.Guards, gl)
+					}
+				}
+				mine = append(mine, rc)
+			}
+			if okAll {
+				if p.callCases == nil {
+					p.callCases = map[string]*callCase{}
+				}
+				p.callCases[a] = &callCase{call: c, cases: mine}
+			}
+		}
 		for _, pf := range sum.Post {
 			if pf.Res != idx {
 				continue
@@ -2293,4 +3041,29 @@ func (p *Prover) Describe(a string) string {
 		s += fmt.Sprintf(" <= %d", p.hi[a])
 	}
 	return s
+}
+
+// DumpSummary renders a function summary (diagnostics).
+func (ps *ProverSet) DumpSummary(fn *ssa.Function) string {
+	s := ps.Summary(fn)
+	if s == nil {
+		return "<nil>"
+	}
+	var sb strings.Builder
+	for i, e := range s.Exact {
+		fmt.Fprintf(&sb, "exact[%d]=%s; ", i, e.String())
+	}
+	for _, p := range s.Post {
+		fmt.Fprintf(&sb, "post[%d] %s success=%v pre=%d; ", p.Res, p.L.String(), p.Success, len(p.Pre))
+	}
+	for _, h := range s.HeapPost {
+		fmt.Fprintf(&sb, "heap %s; ", h.String())
+	}
+	for _, sp := range s.StructPost {
+		fmt.Fprintf(&sb, "struct[%d]%s>=%d success=%v; ", sp.Res, sp.Suffix, sp.Min, sp.Success)
+	}
+	for i, cs := range s.Cases {
+		fmt.Fprintf(&sb, "cases[%d]=%d; ", i, len(cs))
+	}
+	return sb.String()
 }
